@@ -305,7 +305,10 @@ def classify(f, txt='', p1=None):
         if path.endswith('isLast/bool[0]') or '.isLast' in path:
             return ('ASTString:visit_RegularAggregation:aggr in join body printed after the join',
                     '`inner_join(a, b aggr …)` is printed as `inner_join(a, b)[aggr …]` (clause moved out of the join body)', True)
-        if '_right_condition' in path or '_right_condition' in a + b:
+        hr_cond = re.search(r'define\s+hierarchical\s+ruleset(?:(?!end\s+hierarchical).)*?(?:=|>=|<=|>|<|\+|-)\s*\w+\s*\[', txt or '', re.S)
+        if '_right_condition' in path or '_right_condition' in a + b or ('HRuleset.rules' in path and hr_cond):
+            # (rules are compared as a multiset ordered by their rendering: a rule that lost its code-item condition sorts
+            # elsewhere, so the first difference may be reported on a neighbouring field of the ruleset)
             return ('ASTString:visit_DefIdentifier:condition of a code item in a hierarchical rule dropped',
                     '`A = B[Id_2 = "y"] + C` is printed as `A = B + C`: the rightCondition of the code item is lost', True)
         if 'EnumeratedVpClause.values' in path and 'None' in a + b:
